@@ -29,6 +29,7 @@ import (
 
 const vfC07SigDeleteRole = "delete-role-purge-leaks-sequence"
 const vfC07SigUpdatePrincipal = "update-principal-save-error-leaks-sequence"
+const vfC07SigRetryUnused = "cas-retry-unused-sequences-dropped-when-a-later-attempt-fails"
 
 // ---------------------------------------------------------------------------------------------
 // unused-sequence documents as the bucket holds them
@@ -665,7 +666,7 @@ const vfC07SyncFn = `function(doc, oldDoc, meta) {
 }`
 
 type vfC07World struct {
-	rt       *rapid.T
+	rt       kit.TB // *rapid.T in the generated test, *testing.T in the replays
 	env      *vfEnv
 	leaky    *base.LeakyDataStore
 	ops      []string
@@ -778,11 +779,11 @@ func (w *vfC07World) write(label, docID, parent string, body Body, tombstone boo
 		}
 	})
 	kind := vfC07Classify(err)
-	w.op("%s(%s,parent=%s)=%s", label, docID, parent, kind)
 	if err == nil && doc == nil {
 		// the pushed revision was already known (another client pushed the same revision first): a no-op
 		kind = "alreadyknown"
 	}
+	w.op("%s(%s,parent=%s)=%s", label, docID, parent, kind)
 	w.classes["write-"+kind]++
 	if err != nil || doc == nil {
 		return kind
@@ -818,9 +819,40 @@ func vfC07GenBody(rt *rapid.T, reject bool) Body {
 	return b
 }
 
+// installInterlopers hooks the compare-and-swap window of document writes: after a write's update
+// callback ran (so it has reserved its sequence) and before its compare-and-swap, the next queued
+// other-client write for that key is executed.
+func (w *vfC07World) installInterlopers() error {
+	lds, ok := base.AsLeakyDataStore(w.env.Coll.dataStore)
+	if !ok {
+		return fmt.Errorf("collection data store is %T, not the leaky wrapper", w.env.Coll.dataStore)
+	}
+	lds.SetUpdateCallback(func(key string) {
+		if len(w.armedFns) > 0 && key == w.armedKey && !w.inInter {
+			fn := w.armedFns[0]
+			w.armedFns = w.armedFns[1:]
+			w.inInter = true // the interloper's own write is not interfered with
+			defer func() { w.inInter = false }()
+			fn()
+		}
+	})
+	return nil
+}
+
+func vfC07NewWorld(tb kit.TB, env *vfEnv) *vfC07World {
+	return &vfC07World{rt: tb, env: env, ack: map[uint64]string{}, docUnus: map[uint64]string{}, docSeq: map[string]uint64{}, docRev: map[string]string{},
+		docRevs: map[string][]string{}, roles: map[string]string{}, users: map[string]bool{}, classes: map[string]int{}}
+}
+
 // account is the quiescence check: every number reserved since the case started is on an
 // acknowledged write, in a stored document's unused sequences, or in an unused-sequence document.
 func (w *vfC07World) account(when string) {
+	if problem := w.accountProblem(when); problem != "" {
+		w.fail("%s", problem)
+	}
+}
+
+func (w *vfC07World) accountProblem(when string) string {
 	dbc := w.env.DBC
 	kit.Guard(w.rt, "C07", "Writes", w.render, func() { dbc.sequences.releaseUnusedSequences(w.env.Ctx) }) // what the idle timer does
 	counter, err := base.GetCounter(w.env.Ctx, dbc.MetadataStore, dbc.MetadataKeys.SyncSeqKey())
@@ -832,27 +864,28 @@ func (w *vfC07World) account(when string) {
 		panic(kit.InconclusiveErr{Msg: "listing unused-sequence documents: " + err.Error()})
 	}
 	if problem != "" {
-		w.fail("%s: %s", when, problem)
+		return fmt.Sprintf("%s: %s", when, problem)
 	}
 	if last, max := dbc.sequences.vfC07Window(); last != max {
-		w.fail("%s: the allocator still holds %d..%d after an idle release", when, last+1, max)
+		return fmt.Sprintf("%s: the allocator still holds %d..%d after an idle release", when, last+1, max)
 	}
 	for n := w.base + 1; n <= counter; n++ {
 		single, ranges := u.covers(n)
 		published := single || ranges > 0
 		switch {
 		case w.ack[n] != "" && published:
-			w.fail("%s: sequence %d is carried by %s and is also published as unused (unused-sequence documents %s)", when, n, w.ack[n], u)
+			return fmt.Sprintf("%s: sequence %d is carried by %s and is also published as unused (unused-sequence documents %s)", when, n, w.ack[n], u)
 		case w.ack[n] != "" || published || w.docUnus[n] != "":
 		default:
-			w.fail("%s: sequence %d was reserved (counter=%d) but is neither on an acknowledged write, nor in a document's unused sequences, nor in an unused-sequence document %s — the change feed will wait for it", when, n, counter, u)
+			return fmt.Sprintf("%s: sequence %d was reserved (counter=%d) but is neither on an acknowledged write, nor in a document's unused sequences, nor in an unused-sequence document %s — the change feed will wait for it", when, n, counter, u)
 		}
 	}
 	for n, what := range w.ack {
 		if n > counter {
-			w.fail("%s: %s carries sequence %d, the shared counter is %d", when, what, n, counter)
+			return fmt.Sprintf("%s: %s carries sequence %d, the shared counter is %d", when, what, n, counter)
 		}
 	}
+	return ""
 }
 
 func (w *vfC07World) principalSeq(name string, isUser bool) (uint64, bool) {
@@ -905,6 +938,7 @@ func TestVerif_C07_Writes(t *testing.T) {
 	defer rec.Flush()
 	knownDR := kit.Known("C07", vfC07SigDeleteRole)
 	knownUP := kit.Known("C07", vfC07SigUpdatePrincipal)
+	knownRU := kit.Known("C07", vfC07SigRetryUnused)
 	oldFreq := MaxSequenceIncrFrequency
 	defer func() { MaxSequenceIncrFrequency = oldFreq }()
 	rapid.Check(t, func(rt *rapid.T) {
@@ -933,8 +967,7 @@ func TestVerif_C07_Writes(t *testing.T) {
 		}
 		defer env.Close()
 		vfC07ParkTimer(env.DBC.sequences)
-		w := &vfC07World{rt: rt, env: env, ack: map[uint64]string{}, docUnus: map[uint64]string{}, docSeq: map[string]uint64{}, docRev: map[string]string{},
-			docRevs: map[string][]string{}, roles: map[string]string{}, users: map[string]bool{}, classes: map[string]int{}}
+		w := vfC07NewWorld(rt, env)
 		defer func() {
 			if x := recover(); x != nil {
 				if ie, ok := x.(kit.InconclusiveErr); ok {
@@ -945,19 +978,9 @@ func TestVerif_C07_Writes(t *testing.T) {
 				panic(x)
 			}
 		}()
-		lds, ok := base.AsLeakyDataStore(env.Coll.dataStore)
-		if !ok {
-			panic(kit.InconclusiveErr{Msg: fmt.Sprintf("collection data store is %T, not the leaky wrapper", env.Coll.dataStore)})
+		if err := w.installInterlopers(); err != nil {
+			panic(kit.InconclusiveErr{Msg: err.Error()})
 		}
-		lds.SetUpdateCallback(func(key string) {
-			if len(w.armedFns) > 0 && key == w.armedKey && !w.inInter {
-				fn := w.armedFns[0]
-				w.armedFns = w.armedFns[1:]
-				w.inInter = true // the interloper's own write is not interfered with
-				defer func() { w.inInter = false }()
-				fn()
-			}
-		})
 		w.op("config(batchGrowth=%v,allowConflicts=%v,defaultCollection=%v)", growth, allowConflicts, defaultColl)
 		// numbers reserved while the database opened are not part of the case
 		env.DBC.sequences.releaseUnusedSequences(env.Ctx)
@@ -1001,6 +1024,11 @@ func TestVerif_C07_Writes(t *testing.T) {
 			for k := 0; k < nInter; k++ {
 				inner := vfC07GenBody(rt, false)
 				samePush := label == "raced-push" && rapid.IntRange(0, 2).Draw(rt, "sameRevision") == 0
+				if samePush && k == 1 && knownRU {
+					// third attempt cancelled after two reservations: the listed finding
+					rec.Excluded(vfC07SigRetryUnused)
+					samePush = false
+				}
 				w.armedFns = append(w.armedFns, func() {
 					w.op("  [in a CAS window of the next write]")
 					if samePush {
@@ -1168,6 +1196,43 @@ func TestVerif_C07_KnownFindings(t *testing.T) {
 		}
 		kit.Violation(t, "C07", "KnownFindings", render, "%s", what)
 	}
+	func() {
+		render := "allow_conflicts; push(d1, rev R) loses its compare-and-swap to put(d1), retries (second sequence), loses to another push of R, third attempt: revision already known"
+		restore := SuspendSequenceBatching()
+		defer restore()
+		env, err := vfOpen(t, vfDBConfig{SyncFn: vfC07SyncFn, DefaultCollection: true,
+			Mutate:     func(o *DatabaseContextOptions) { o.AllowConflicts = base.Ptr(true) },
+			WrapBucket: func(b base.Bucket) base.Bucket { return base.NewLeakyBucket(b, base.LeakyBucketConfig{}) }})
+		if err != nil {
+			kit.InconclusiveLine("C07", "open database: %v", err)
+			return
+		}
+		defer env.Close()
+		vfC07ParkTimer(env.DBC.sequences)
+		w := vfC07NewWorld(t, env)
+		if err := w.installInterlopers(); err != nil {
+			kit.InconclusiveLine("C07", "%v", err)
+			return
+		}
+		env.DBC.sequences.releaseUnusedSequences(env.Ctx)
+		w.base, _ = base.GetCounter(env.Ctx, env.DBC.MetadataStore, env.DBC.MetadataKeys.SyncSeqKey())
+		body := Body{"chan": "A", "n": 1}
+		w.armedKey = "d1"
+		w.armedFns = []func(){
+			func() { w.write("interloper-put", "d1", "", Body{"chan": "A", "n": 2}, false) },
+			func() { w.write("interloper-same-push", "d1", "", body, false) },
+		}
+		w.write("raced-push", "d1", "", body, false)
+		w.armedFns = nil
+		rec.Case(render, false, "regression-replays")
+		if problem := w.accountProblem("after the write returned"); problem != "" {
+			if kit.Known("C07", vfC07SigRetryUnused) {
+				kit.KnownFinding("C07", vfC07SigRetryUnused, render+": "+problem)
+				return
+			}
+			kit.Violation(t, "C07", "KnownFindings", w.render(), "%s", problem)
+		}
+	}()
 	mkRole := func(env *vfEnv) error {
 		_, _, err := env.DBC.UpdatePrincipal(env.Ctx, &auth.PrincipalConfig{Name: base.Ptr("r1"), ExplicitChannels: base.SetOf("A")}, false, true)
 		return err
